@@ -205,6 +205,26 @@ fn build_count_input(i: usize, rng: &mut Rng) -> (String, Vec<u8>) {
             2 => ("empty ECMA arrays, 16 MiB".into(), rep(&[0x08, 0, 0, 0, 0, 0, 0, 9], MAX_LEN)),
             3 => ("ECMA arrays with one property each, 4 MiB".into(), rep(&[0x08, 0, 0, 0, 1, 0, 1, b'a', 0x05, 0, 0, 9], 4 << 20)),
             4 => ("objects with one property each, 4 MiB".into(), rep(&[0x03, 0, 1, b'a', 0x05, 0, 0, 9], 4 << 20)),
+            6 => {
+                let mut v = vec![0x03];
+                v.extend(rep(&[0, 1, b'a', 0x05], 800_000));
+                v.extend_from_slice(&[0, 0, 9]);
+                ("one object with the same property name repeated 200,000 times".into(), v)
+            }
+            7 => {
+                let mut v = vec![0x08, 0, 0, 0, 1];
+                v.extend(rep(&[0, 1, b'a', 0x0A, 0, 0, 0, 0], 1_600_000));
+                v.extend_from_slice(&[0, 0, 9]);
+                ("one ECMA array with the same property name repeated 200,000 times (values: empty arrays)".into(), v)
+            }
+            8 | 9 | 10 | 11 => {
+                // a lying count that is only trusted once enough real elements have arrived
+                let (count, real): (u32, usize) = [(0x0040_0000, 1_025), (0xFFFF_FFFF, 1_100), (0x7FFF_FFFF, 4_097), (0x0100_0000, 70_000)][i - 14 - 8];
+                let mut v = vec![0x0A];
+                v.extend_from_slice(&count.to_be_bytes());
+                v.extend(std::iter::repeat(0x05u8).take(real));
+                (format!("strict array declaring {} elements with {} nulls behind", count, real), v)
+            }
             _ => {
                 let mut v = vec![0x0A, 0, 0, 0, 1, 0x05];
                 for k in 1..40u16 {
@@ -419,7 +439,7 @@ impl Check for C14 {
     }
     fn plan(&self, tier: Tier) -> Plan {
         let ladder = Self::ladder_cases(tier);
-        let counts = 20 * 3;
+        let counts = 26 * 3;
         let mut p = Plan::new(ladder + counts + Self::run_cases() + 3 + tier.pick(12_000, 300_000), tier.pick(35.0, 420.0));
         p.mandatory = ladder + counts + Self::run_cases() + 3;
         p.cpu_budget_s = 120.0;
@@ -449,9 +469,9 @@ impl Check for C14 {
         }
         let k2 = k - ladder;
         let runs = Self::run_cases();
-        if k2 >= 20 * 3 && k2 < 20 * 3 + runs {
+        if k2 >= 26 * 3 && k2 < 26 * 3 + runs {
             // long runs of one byte value: every marker (and object-end 09, and FF) repeated
-            let i = (k2 - 20 * 3) as usize;
+            let i = (k2 - 26 * 3) as usize;
             let b = RUN_BYTES[i / (RUN_LENS.len() * 3) % RUN_BYTES.len()];
             let n = RUN_LENS[(i / 3) % RUN_LENS.len()];
             let mut input = vec![b; n];
@@ -465,7 +485,7 @@ impl Check for C14 {
             decode_on_small_stack(input, routes(k2), &what, out);
             return;
         }
-        if k2 >= 20 * 3 + runs && k2 < 20 * 3 + runs + 3 {
+        if k2 >= 26 * 3 + runs && k2 < 26 * 3 + runs + 3 {
             for (what, input) in marker_length_matrix() {
                 out.count("marker_x_declared_length_inputs", 1);
                 decode_on_small_stack(input, routes(k2), &what, out);
@@ -473,8 +493,8 @@ impl Check for C14 {
             out.shape(mix(0xD0, k2));
             return;
         }
-        let k2 = if k2 >= 20 * 3 + runs + 3 { k2 - runs - 3 } else { k2 };
-        if k2 < 20 * 3 {
+        let k2 = if k2 >= 26 * 3 + runs + 3 { k2 - runs - 3 } else { k2 };
+        if k2 < 26 * 3 {
             let (what, input) = build_count_input((k2 / 3) as usize, rng);
             out.count("count_field_inputs", 1);
             out.shape(mix(0xC0, k2));
